@@ -174,6 +174,7 @@ int ds_nops(int t) { return t < MAXPROG ? nops[t] : 0; }
 const struct ds_op *ds_op(int t, int i) { return &prog[t][i]; }
 unsigned long ds_now(void) { return ds_step; }
 int ds_self(void) { return self ? self->id : -1; }
+int ds_scen_index(void) { return self ? self->scen_idx : -1; }
 void ds_flag(int bit) { flags |= 1ull << bit; }
 unsigned long ds_my_steps(void) { return self->lsteps; }
 void ds_ev(int kind, long a, long b)
@@ -796,7 +797,9 @@ int __wrap_pthread_create(pthread_t *pt, const pthread_attr_t *attr, void *(*fn)
 	if (!was) sched_point();
 	in_rt = 1; sb_drain(me);
 	long k = nth_call[FC_PCREATE]++;
-	if (!spawning_scen && fault_hit("pthread_create_eagain", k)) { in_rt = was; return EAGAIN; }
+	/* EAGAIN only where the library documents a fallback: the partitioned-resize helpers, which are the only threads created with the caller's
+	 * pthread attributes (cds_lfht_new's attr argument); work-queue and call_rcu helper creation treat failure as fatal by design */
+	if (!spawning_scen && attr && fault_hit("pthread_create_eagain", k)) { in_rt = was; return EAGAIN; }
 	new_thread(pt, attr, fn, arg);
 	in_rt = was;
 	return 0;
